@@ -182,7 +182,12 @@ pub enum ArenaState {
     RemainingEqCount,
     RemainingCountMinus1,
     RemainingZero,
+    /// an earlier read of 1 MiB + 1 bytes was completed and dropped: the arena's current chunk is at
+    /// its largest size class (used by the exact-1-MiB family only)
+    AfterBigRead,
 }
+/// every state, for parsing artefacts
+pub const ALL_ARENA_STATES: [ArenaState; 6] = [ArenaState::NoCache, ArenaState::FreshChunk, ArenaState::RemainingEqCount, ArenaState::RemainingCountMinus1, ArenaState::RemainingZero, ArenaState::AfterBigRead];
 pub const ARENA_STATES: [ArenaState; 5] = [ArenaState::NoCache, ArenaState::FreshChunk, ArenaState::RemainingEqCount, ArenaState::RemainingCountMinus1, ArenaState::RemainingZero];
 
 #[derive(Clone, Copy, Debug, PartialEq, Eq)]
@@ -208,7 +213,7 @@ fn source(count: usize) -> &'static [u8] {
         &PATTERN
     } else {
         BIG.get_or_init(|| {
-            (0..400_000usize)
+            (0..2_300_000usize)
                 .map(|i| match i % 100_000 {
                     1 => 0xFE,
                     2 => 0xFD,
@@ -262,7 +267,7 @@ impl Case {
         let script = get("script")?;
         Some(Case {
             entry: ENTRIES.iter().copied().find(|e| format!("{:?}", e) == get("entry").unwrap_or(""))?,
-            arena: ARENA_STATES.iter().copied().find(|e| format!("{:?}", e) == get("arena").unwrap_or(""))?,
+            arena: ALL_ARENA_STATES.iter().copied().find(|e| format!("{:?}", e) == get("arena").unwrap_or(""))?,
             count: get("count")?.parse().ok()?,
             attempts,
             script: if script.is_empty() { vec![] } else { script.split(',').map(Sym::parse).collect::<Option<Vec<_>>>()? },
@@ -295,6 +300,13 @@ fn prepare_arena(arena: &mut ByteArena, state: ArenaState, count: usize) {
         ArenaState::RemainingEqCount => set_remaining(arena, count),
         ArenaState::RemainingCountMinus1 => set_remaining(arena, count.saturating_sub(1)),
         ArenaState::RemainingZero => set_remaining(arena, 0),
+        ArenaState::AfterBigRead => {
+            let n = (1usize << 20) + 1;
+            let big = vec![0x5Au8; n];
+            let got = arena.read_n(ScriptReader::new(&full, &big), n, NonZeroUsize::MAX).expect("big read");
+            assert_eq!(got.slice().len(), n);
+            drop(got);
+        }
     }
 }
 
@@ -435,6 +447,12 @@ fn run_arena(case: &Case, attempts: NonZeroUsize) -> Result<(), String> {
         if second.slice() != &PATTERN[..3] {
             return Err("follow-up read returned wrong bytes".into());
         }
+        // ... and a follow-up larger than a small chunk
+        let big = source(5000);
+        let third = arena.read_n(ScriptReader::new(&[Sym::DAll], big), 5000, NonZeroUsize::MAX).map_err(|e| format!("second follow-up read failed: {}", e))?;
+        if third.slice() != &big[..5000] {
+            return Err("second follow-up read returned wrong bytes".into());
+        }
         let a = first.slice().as_ptr_range();
         let b = second.slice().as_ptr_range();
         if !first.slice().is_empty() && (a.start as usize) < (b.end as usize) && (b.start as usize) < (a.end as usize) {
@@ -518,6 +536,7 @@ fn run_decoder(case: &Case, attempts: NonZeroUsize) -> Result<(), String> {
     }
     let mut reader = ScriptReader::new(&case.script, &encoded[pre..]);
     let mut fed = pre;
+    let mut drained_early: Vec<u8> = Vec::new();
     match case.entry {
         Entry::DecoderReadN => {
             let got = dec.read_n(&mut reader, case.count, attempts);
@@ -527,9 +546,24 @@ fn run_decoder(case: &Case, attempts: NonZeroUsize) -> Result<(), String> {
                 (Err(e), Err(kind)) if kind_of(e) == *kind => {}
                 (g, w) => return Err(format!("Decoder::read_n returned {:?} expected {:?}", g.as_ref().map(|s| show(s.slice())).map_err(kind_of), w)),
             }
-            // hand the bytes that were read to the decoder explicitly
+            // hand the bytes that were read to the decoder explicitly -- but first use the slice as a
+            // look-ahead buffer: the consumer drains everything decoded so far and the arena serves
+            // another (failing) read; the slice must still hold exactly the bytes that were delivered
             if let Ok(slice) = got {
-                fed += slice.slice().len();
+                {
+                    let mut consumer = dec.consumer();
+                    for s in consumer.stable_prefix() {
+                        drained_early.extend_from_slice(s);
+                    }
+                    consumer.advance_slices(usize::MAX);
+                }
+                let _ = dec.read_n(ScriptReader::new(&[Sym::ErrOther], &PATTERN), 8, NonZeroUsize::MAX);
+                let _ = dec.read_n(ScriptReader::new(&[Sym::DAll], &PATTERN), 8, NonZeroUsize::MAX).map(drop);
+                let n = slice.slice().len();
+                if slice.slice() != &encoded[pre..pre + n] {
+                    return Err(format!("the slice returned by Decoder::read_n changed after the consumer drained the decoder and the arena served another read: [{}] expected [{}]", show(slice.slice()), show(&encoded[pre..pre + n])));
+                }
+                fed += n;
                 dec.decode_anchored(slice).map_err(|e| format!("decode_anchored failed: {}", e))?;
             }
         }
@@ -545,7 +579,9 @@ fn run_decoder(case: &Case, attempts: NonZeroUsize) -> Result<(), String> {
     }
     dec.decode(&encoded[fed..]).map_err(|e| format!("decoding the rest failed: {}", e))?;
     let out = dec.finish().map_err(|e| format!("finish failed: {}", e))?;
-    let bytes = out.flatten().map_err(|_| "decoder output has a pending placeholder".to_string())?;
+    let rest = out.flatten().map_err(|_| "decoder output has a pending placeholder".to_string())?;
+    let mut bytes = drained_early;
+    bytes.extend_from_slice(&rest);
     if bytes != message {
         return Err(format!("decoder output [{}] expected [{}]", show(&bytes), show(message)));
     }
@@ -661,7 +697,7 @@ fn explore_large(ctx: &Ctx, rep: &mut Report, max_len: usize, unit: &mut usize) 
                     match run_case(&case) {
                         Ok(()) => {
                             rep.nontrivial += 1;
-                            let want = spec(script, count, attempts, 400_000);
+                            let want = spec(script, count, attempts, 2_300_000);
                             rep.outcome(hash_of(&(format!("{:?}", want.result), want.calls, entry as u8)));
                         }
                         Err(e) if !relevant(&e) => rep.count("cases_failing_only_a_sibling_oracle", 1),
@@ -680,6 +716,42 @@ fn explore_large(ctx: &Ctx, rep: &mut Report, max_len: usize, unit: &mut usize) 
     rep.note(format!("large counts {:?} (beyond one 64008-byte HCOBS chunk): all scripts over {{deliverAll, deliver40000, deliver64008, deliver1, EINTR, EOF, ErrOther, ErrWouldBlock}} up to length {} x attempt limits 1/2/3/MAX x 5 entry points, 400 000-byte source with stuff sequences and lone FE bytes", LARGE_COUNTS, max_len));
 }
 
+/// Counts at the arena's largest chunk size class (1 MiB), after an earlier bigger read.
+fn explore_one_mib(ctx: &Ctx, rep: &mut Report, unit: &mut usize) {
+    let scripts: Vec<Vec<Sym>> = vec![vec![Sym::DAll], vec![], vec![Sym::ErrOther], vec![Sym::Intr, Sym::DAll], vec![Sym::D1, Sym::DAll], vec![Sym::D64008, Sym::Eof]];
+    for count in [(1usize << 20) - 1, 1 << 20, (1 << 20) + 1] {
+        for script in &scripts {
+            let u = *unit;
+            *unit += 1;
+            if !ctx.owns(u) {
+                continue;
+            }
+            for attempts in [1usize, 2, usize::MAX] {
+                for entry in ENTRIES {
+                    for arena in [ArenaState::AfterBigRead, ArenaState::FreshChunk] {
+                        let case = Case { script: script.clone(), count, attempts, arena, entry };
+                        rep.evaluations += 1;
+                        rep.transitions += script.len().min(attempts) as u64 + 1;
+                        rep.count("one_mib_cases", 1);
+                        match run_case(&case) {
+                            Ok(()) => rep.nontrivial += 1,
+                            Err(e) if !relevant(&e) => rep.count("cases_failing_only_a_sibling_oracle", 1),
+                            Err(e) => {
+                                if run_case(&case).is_ok() {
+                                    machinery_failure("C17 violation did not reproduce");
+                                }
+                                let r = case.render();
+                                rep.violation(Violation { key: format!("C17:{}", r.replace(' ', ";")), summary: format!("read_n [{}]: {}", r, e), replay_text: format!("case: {}\nobserved: {}\n", r, e) });
+                            }
+                        }
+                    }
+                }
+            }
+        }
+    }
+    rep.note("exact size class: counts 1 MiB - 1, 1 MiB, 1 MiB + 1 on an arena whose current chunk is already at the largest size class (an earlier read of 1 MiB + 1 bytes) and on a fresh one, 6 scripts x attempt limits 1/2/MAX x 5 entry points".to_string());
+}
+
 fn run(ctx: &Ctx) -> Report {
     if ctx.prop != "C17" {
         machinery_failure("readn_mc serves C17 only");
@@ -691,6 +763,7 @@ fn run(ctx: &Ctx) -> Report {
     explore(ctx, &mut rep, max_len);
     let mut unit = 0usize;
     explore_large(ctx, &mut rep, ctx.tier.pick(3, 4), &mut unit);
+    explore_one_mib(ctx, &mut rep, &mut unit);
     rep.max_depth = max_len as u64;
     rep.note(format!(
         "C17: all reader scripts over {{deliverAll, deliver1, deliver2, EINTR, EOF, ErrOther, ErrWouldBlock, ErrUnexpectedEof}} up to length {} (EOF forever afterwards) x counts {:?} x attempt limits {:?} x 5 arena states (ByteArena::read_n) / 2 arena states (Encoder/Decoder read_n, encode_read, decode_read)",
